@@ -280,8 +280,12 @@ func ledgerStorm(g, per, kind, rounds int) vlib.Res {
 			or = fmt.Sprintf("FAIL sig=ledger/storm/accepted-count accepted=%d want=%d", acc.Load(), want)
 			break
 		}
-		if used != want {
-			or = fmt.Sprintf("FAIL sig=ledger/storm/counter-differs counter=%d want=%d", used, want)
+		wantUsed := want
+		if !curPolicy.Enabled() {
+			wantUsed = 0 // nothing is accounted when the firewall is off
+		}
+		if used != wantUsed {
+			or = fmt.Sprintf("FAIL sig=ledger/storm/counter-differs counter=%d want=%d", used, wantUsed)
 			break
 		}
 		if curPolicy.Mode == middleware.RecursionWorkEnforce && total > caps[kind] {
